@@ -71,6 +71,8 @@ class SimTransport(transports.Transport):
             self.fail_after -= 1
         self.written += data
         self.net.obs("write", self.cid, bytes(data))
+        if self.net.on_write:
+            self.net.on_write(self, bytes(data))
 
     def _fatal(self, exc, by):
         if self._conn_lost:
@@ -167,6 +169,7 @@ class Net:
         self.log = []
         self.auto = None         # None: environment decides; "accept"/"refuse": immediate
         self.on_open = None      # callback(transport) e.g. the simulated console
+        self.on_write = None     # callback(transport, data) for every successful write
         self.dgram = []          # datagram endpoints
         loop.net = self
 
